@@ -82,7 +82,9 @@ impl MergeFunction for Concat {
 }
 const TOK: usize = 256; // token width: 4-byte insertion index + padding, so that volume reaches the 10 MiB minimum budget
 
-fn token(i: u32) -> Vec<u8> { let mut t = i.to_be_bytes().to_vec(); t.resize(TOK, (i % 251) as u8); t }
+/// token of insert #i: unique per i (odd multiplier = bijection on u32) and in an order unrelated to i, so that a sorter that orders
+/// equal keys by anything but insertion position (e.g. by value bytes) is seen
+fn token(i: u32) -> Vec<u8> { let mut t = i.wrapping_mul(0x9E37_79B1).to_be_bytes().to_vec(); t.resize(TOK, (i % 251) as u8); t }
 
 struct SorterCfg { threshold: usize, realloc: bool, max_chunks: usize, algo: SortAlgorithm, par: bool, ct: grenad::CompressionType, levels: u8, block: usize, interval: usize }
 
